@@ -388,6 +388,27 @@ class SerialLikeStream(RecordingStream):
         return len(b)
 
 
+class RawRecordingStream(io.RawIOBase, RecordingStream):
+    """The same double as an io.RawIOBase subclass (what open(..., buffering=0), FIFOs and ttys give): isinstance
+    checks against the io base classes succeed, read(n) may legitimately return fewer than n bytes."""
+
+    def __init__(self, *a, **kw):
+        io.RawIOBase.__init__(self)
+        RecordingStream.__init__(self, *a, **kw)
+
+    def readable(self):
+        return True
+
+    def read(self, n=-1):
+        return RecordingStream.read(self, n)
+
+    def readline(self, *a):
+        return RecordingStream.readline(self)
+
+    def readinto(self, b):
+        return RecordingStream.readinto(self, b)
+
+
 class SeekableRecordingStream(RecordingStream):
     """RecordingStream that also offers seek()/tell()/seekable() like a regular file or BytesIO."""
 
